@@ -1,7 +1,7 @@
 """C06 — alpha multiply exact, divide faithful and saturating (clauses)."""
 import re
 
-from ..engines import alpha_rules, deps, lanes, rounding, simd_rules
+from ..engines import alpha_rules, alphapair, deps, lanes, rounding, simd_rules
 from ..facts import CheckError
 from ..progs import programs
 from ..sym import Sym, fmt, short
@@ -229,6 +229,8 @@ def run(rep, tier):
         rep.call(saturate, rep, prog, "C06.saturate")
         rep.call(simd_rules.lane_bypass, rep, prog, "C06.lane-bypass")
         rep.call(rounding.round_div, rep, prog, "C06.round-div")
+        if cfg.startswith("x86"):
+            rep.call(alphapair.provenance, rep, prog, "C06.provenance")
         if cfg.startswith("x86") or cfg == "wasm":
             rep.call(convert_range, rep, prog, "C06.convert-range")
         rep.call(alpha_lane, rep, prog, "C06.alpha-lane")
